@@ -321,8 +321,10 @@ def judge(case, orig_id, loop, mutated, mut):
     name, ptrs = parsed[0], parsed[3]
     ident, w2, bad = sig_identity(kind, mutated)
     sp = case['signer']
-    if sp is not None and sp['kind'] in VERIFIED_KINDS + ['digest_i'] and orig_id is not None and ident != orig_id:
-        # differs from the signed packet in signed portion or signature value (or is not even well-formed)
+    # differs from the signed packet in signed portion or signature value: by the strict reading when there is one,
+    # else (mutant not well-formed) when the edit touched the signed portion / SignatureValue element at all
+    differs = ident != orig_id if ident is not None else mut.get('in_region', True)
+    if sp is not None and sp['kind'] in VERIFIED_KINDS + ['digest_i'] and orig_id is not None and differs:
         res = verdicts(case, loop, name, ptrs)
         primary = res[0][1]
         for i, (label, r) in enumerate(res):
@@ -383,11 +385,12 @@ def gen_mutations(case, w, rng, thorough):
     if kind == 'interest':                                          # bytes outside the digest range must not matter: sample a few
         vo, ve = w['value']
         pos.update(rng.sample(range(vo, ve), min(4, ve - vo)))
+    region = set(allpos)
     for p in sorted(pos):
         vals = {wire[p] ^ rng.choice([1, 2, 4, 8, 16, 32, 64, 128]), rng.randrange(256)} if thorough else {wire[p] ^ rng.choice([1, 0x80, 0xFF, rng.randrange(1, 256)])}
         for v in vals:
             if v != wire[p]:
-                muts.append({'type': 'sub', 'pos': p, 'val': v})
+                muts.append({'type': 'sub', 'pos': p, 'val': v, 'in_region': p in region})
     n = len(wire)
     ks = set(range(n)) if (thorough and n <= 40) else set(rng.sample(range(n), min(n, 40 if thorough else 6)))
     ks.update(k for k in (0, 1, 2, n - 1) if 0 <= k < n)
